@@ -2,7 +2,10 @@
 
 A generator body (list of steps: await a future | yield Value(v)) is turned into a real @async_generator()
 (optionally wrapped in outer generators that iterate it as documented), and a history of caller operations
-(next(gen) / compute the k-th returned future / take_first(gen, n) / list_of_generator(gen)) is run on it.
+(next(gen) / compute the k-th returned future / take_first(gen, n) / list_of_generator(gen) / "par": yield the k-th
+returned future together with a sibling task that advances the generator, so that the advance happens while that
+future has STARTED and is parked on an unflushed batch item) is run on it.  Value payloads include objects that are
+equal to everything and futures (ConstFuture, computed and uncomputed tasks, unflushed batch items).
 After every operation the result, the number of items the underlying Python generator has yielded, whether it
 ran off its end and whether every await was resumed with the result of the awaited future are recorded.
 The Lean model (AsynqModel.Lib.Generator) replays the same history (correspondence) and the Lean observer
@@ -21,6 +24,7 @@ THEOREMS = [
     "AsynqModel.Generator.C17_take_zero",
     "AsynqModel.Generator.C17_no_marker",
     "AsynqModel.Generator.C17_guard",
+    "AsynqModel.Generator.C17_guard_started",
     "AsynqModel.Generator.C17_exhausted",
     "AsynqModel.Generator.C17_take_repeat",
     "AsynqModel.Generator.C17_nested",
@@ -30,10 +34,13 @@ BUILDS = {"quick": ["py"], "thorough": ["py", "cy"]}
 EXHAUSTIVE = {"quick": True, "thorough": True}
 RULE = ("every generator body over {await, Value} of length 0-6 (thorough: 0-8) x scripted histories (list; take n for "
         "n = 0..len+1 followed by further take_first/list/next calls; manual next/compute iteration to exhaustion; "
-        "advancing at every position while the previous task is uncomputed) with awaits that are ConstFutures, async "
-        "calls or items of a harness batch, plus random bodies of length 7-30 with random histories and 0-2 levels of "
-        "nesting; non-trivial = body with at least one await and one Value and a history of at least 2 operations; "
-        "distinct by (body, await kinds, nesting, history) hash")
+        "advancing at every position while the previous task is uncomputed; two consumers: every returned future yielded "
+        "together with a sibling that advances the generator by next / take_first / list_of_generator, i.e. while the "
+        "task has started and is parked on an unflushed batch item) with awaits that are ConstFutures, async calls or "
+        "items of a harness batch and Value payloads that are plain objects, None, objects equal to everything or futures "
+        "(ConstFuture, computed task, uncomputed task, unflushed batch item), plus random bodies of length 7-30 with "
+        "random histories and 0-2 levels of nesting; non-trivial = body with at least one await and one Value and a "
+        "history of at least 2 operations; distinct by (body, await kinds, nesting, history) hash")
 TRUSTED = [
     "hand-written Lean model AsynqModel.Lib.Generator tied to the code by this differential run only",
     "Python harness checks/c17.py (generator bodies built from step lists, token <-> object identity mapping, pull counter "
@@ -42,13 +49,16 @@ TRUSTED = [
 ]
 ASSUMPTIONS = [
     "awaited futures succeed (a body whose awaited future raises is outside the statement)",
-    "one consumer at a time: tasks of one generator are computed by the caller that obtained them, n >= 0 (the code "
-    "treats n < 0 like 0)",
+    "tasks of one generator are computed by the caller that obtained them; a second consumer only ever advances the "
+    "generator as a sibling of the pending task in one yield (the scheduler, C03/C04, runs the pending task first and "
+    "as far as it gets without flushing a batch); n >= 0 (the code treats n < 0 like 0)",
     "nested generators are outer generators that iterate the inner one as documented (for task in inner: v = yield task; "
     "skip END_OF_GENERATOR; yield Value(v)); their effective body is Generator.wrap of the inner body",
 ]
 UNKNOWN = 999999
-WILD = 50          # value tokens >= WILD are objects whose __eq__ answers True to everything
+WILD = 50          # value tokens WILD..FUT-1 are objects whose __eq__ answers True to everything
+FUT = 1000         # value tokens >= FUT are futures: t % 4 = 0 ConstFuture, 1 computed task, 2 uncomputed task,
+                   # 3 item of a harness batch that has not been flushed
 
 
 # ---------------------------------------------------------------------------------------------------
@@ -71,8 +81,10 @@ def mk_body(shape, rng, kind=None):
             r = rng.random()
             if r < 0.08:
                 body.append(["v", 0])              # Value(None)
-            elif r < 0.25:
-                body.append(["v", WILD + t])       # a Value that claims to be equal to everything
+            elif r < 0.22:
+                body.append(["v", WILD + (t % 900)])   # a Value that claims to be equal to everything
+            elif r < 0.40:
+                body.append(["v", FUT + 4 * t + rng.randrange(4)])   # a Value whose payload is a future
             else:
                 body.append(["v", t])
     return body
@@ -121,6 +133,17 @@ def guard_ops(body, stop_at):
     return ops
 
 
+ADVS = [["next"], ["take", 1], ["list"], ["take", 0], ["take", 2]]
+
+
+def par_ops(body, adv):
+    """two consumers: every returned future is yielded together with a sibling that advances the generator"""
+    ops = []
+    for _ in range(len(body) + 1):
+        ops += [["next"], ["par", -1, adv]]
+    return ops + [["next"], ["list"], ["par", 0, adv]]
+
+
 def scripted(body, rng, nest=0):
     L = len(body)
     out = []
@@ -136,6 +159,9 @@ def scripted(body, rng, nest=0):
     add([["take", 0], ["take", 0], ["next"], ["take", 0], ["next"], ["compute", 0], ["take", 0], ["take", 1], ["take", 0],
          ["list"], ["take", 0], ["next"]])
     add(manual_ops(body))
+    if any(s[0] == "a" for s in body):
+        for adv in ADVS:
+            add(par_ops(body, adv))
     for stop_at in range(0, min(L, 4)):
         add(guard_ops(body, stop_at))
     return out
@@ -154,7 +180,10 @@ def random_ops(rng, nops):
             # not exist (malformed stream: the harness's own IndexError, mirrored by the model as `raised other`)
             x = rng.random()
             ops.append(["compute", k - 1 if x < 0.7 else (rng.randrange(k) if x < 0.97 else k + rng.randrange(3))])
-        elif r < 0.9:
+        elif r < 0.78 and k:
+            ops.append(["par", k - 1 if rng.random() < 0.8 else rng.randrange(k), rng.choice(ADVS)])
+            k += 1  # the sibling may have obtained a future (if not, later indices are merely stale)
+        elif r < 0.92:
             n = rng.choice([0, 1, 1, 2, 2, 3, 4, 6, 9])
             ops.append(["take", n])
         else:
@@ -217,7 +246,11 @@ def shrink(case):
         if s[0] == "a" and s[1] != 0:
             yield {"body": body[:j] + [["a", 0]] + body[j + 1:], "nest": nest, "ops": ops}
         if s[0] == "v" and s[1] >= WILD:
-            yield {"body": body[:j] + [["v", s[1] - WILD]] + body[j + 1:], "nest": nest, "ops": ops}
+            yield {"body": body[:j] + [["v", 1 + j]] + body[j + 1:], "nest": nest, "ops": ops}
+    for i, op in enumerate(ops):
+        if op[0] == "par":
+            yield {"body": body, "nest": nest, "ops": ops[:i] + [["compute", op[1]]] + ops[i + 1:]}
+            yield {"body": body, "nest": nest, "ops": ops[:i] + [["compute", op[1]], op[2]] + ops[i + 1:]}
 
 
 def neighbours(case, rng):
@@ -275,12 +308,6 @@ def run_case(case):
     from asynq.generator import END_OF_GENERATOR, Value, async_generator, list_of_generator, take_first
 
     body, nest, ops = case["body"], case["nest"], case["ops"]
-    vals = {}
-    for s in body:
-        if s[0] == "v":
-            t = s[1]
-            vals[t] = None if t == 0 else (Wild(t) if t >= WILD else Plain(t))
-    val_tok = {id(v): t for t, v in vals.items() if v is not None}
 
     # ---- a batch kind of the harness: an await on one of its items blocks until the scheduler flushes it
     state = {"batch": None, "flushes": 0}
@@ -313,6 +340,27 @@ def run_case(case):
     def echo_via_batch(x):
         r = yield HItem(x)
         return r
+
+    vals = {}
+    for s in body:
+        if s[0] == "v":
+            t = s[1]
+            if t == 0:
+                vals[t] = None
+            elif t < WILD:
+                vals[t] = Plain(t)
+            elif t < FUT:
+                vals[t] = Wild(t)
+            elif t % 4 == 0:
+                vals[t] = futures.ConstFuture(Plain(t))
+            elif t % 4 == 1:
+                vals[t] = echo.asynq(Plain(t))
+                vals[t].value()
+            elif t % 4 == 2:
+                vals[t] = echo.asynq(Plain(t))
+            else:
+                vals[t] = HItem(Plain(t))
+    val_tok = {id(v): t for t, v in vals.items() if v is not None}
 
     pulls = [0] * (nest + 1)
     fin = [False] * (nest + 1)
@@ -364,28 +412,82 @@ def run_case(case):
         return str(val_tok.get(id(v), UNKNOWN))
 
     def sx(x):
-        return "(%s)" % " ".join(str(y) for y in x)
+        return "(%s)" % " ".join(sx(y) if isinstance(y, list) else str(y) for y in x)
 
-    bs = " ".join("a" if s[0] == "a" else "(v %d)" % s[1] for s in body)
+    def lst(r):
+        return ("(lst %s)" % " ".join(tok(x) for x in r)).replace("(lst )", "(lst)") if isinstance(r, list) \
+            else "(raised other NotAList)"
+
+    def futres(f):
+        return "(fut %s)" % (tok(f.value()) if f.is_computed() else "none")
+
+    def run_par(fk, adv):
+        """`yield fk, sibling.asynq()`: the scheduler runs fk first as far as it gets without a flush, then the sibling"""
+        info = {}
+
+        @asynq.asynq()
+        def sibling():
+            info["kdone"] = fk.is_computed()
+            try:
+                if adv[0] == "next":
+                    return ("fut", next(gen))
+                elif adv[0] == "take":
+                    r = yield take_first.asynq(gen, adv[1])
+                    return ("lst", r)
+                else:
+                    r = yield list_of_generator.asynq(gen)
+                    return ("lst", r)
+            except StopIteration:
+                return ("raised", "StopIteration")
+            except RuntimeError:
+                return ("raised", "RuntimeError")
+            except Exception as e:  # noqa
+                return ("raised", "other " + type(e).__name__)
+
+        @asynq.asynq()
+        def consumer():
+            first, second = yield fk, sibling.asynq()
+            return first, second
+
+        first, second = consumer()
+        if second[0] == "fut":
+            held.append(second[1])
+            r2 = futres(second[1])
+        elif second[0] == "lst":
+            r2 = lst(second[1])
+        else:
+            r2 = "(raised %s)" % second[1]
+        return "(item %s)" % tok(first), "(sib %d %s)" % (1 if info.get("kdone") else 0, r2)
+
+    bs = " ".join("(a %d)" % (1 if s[1] >= 2 else 0) if s[0] == "a" else "(v %d)" % s[1] for s in body)
     lines = ["(case generator %d (body %s) (nest %d))" % (case["id"], bs, nest)]
     held = []
     guard_hits = 0
     stops = 0
+    pars = 0
+    parked = 0
     for op in ops:
         name = op[0]
+        op = list(op)
+        if name in ("compute", "par") and op[1] < 0:
+            op[1] = max(len(held) - 1, 0)      # "the most recent future"
+        sib = "-"
         try:
             if name == "next":
                 f = next(gen)
                 held.append(f)
-                res = "(fut %s)" % (tok(f.value()) if f.is_computed() else "none")
+                res = futres(f)
             elif name == "compute":
                 res = "(item %s)" % tok(held[op[1]].value())
             elif name == "take":
-                r = take_first(gen, op[1])
-                res = "(lst %s)" % " ".join(tok(x) for x in r) if isinstance(r, list) else "(raised other NotAList)"
+                res = lst(take_first(gen, op[1]))
             elif name == "list":
-                r = list_of_generator(gen)
-                res = "(lst %s)" % " ".join(tok(x) for x in r) if isinstance(r, list) else "(raised other NotAList)"
+                res = lst(list_of_generator(gen))
+            elif name == "par":
+                res, sib = run_par(held[op[1]], op[2])
+                pars += 1
+                if sib.startswith("(sib 0"):
+                    parked += 1
             else:
                 raise ValueError(name)
         except StopIteration:
@@ -396,8 +498,9 @@ def run_case(case):
             guard_hits += 1
         except Exception as e:  # the outcome of the operation, not a harness failure
             res = "(raised other %s)" % type(e).__name__
-        res = res.replace("(lst )", "(lst)")
-        lines.append("(obs %s %s %d %d %d)" % (sx(op), res, pulls[nest], 1 if fin[nest] else 0, bad[0]))
+        if "(raised RuntimeError)" in sib:
+            guard_hits += 1
+        lines.append("(obs %s %s %s %d %d %d)" % (sx(op), res, sib, pulls[nest], 1 if fin[nest] else 0, bad[0]))
     lines.append("(end)")
 
     nv = n_values(body)
@@ -411,12 +514,21 @@ def run_case(case):
     if nv == 0:
         feats.append("no-values")
     feats += sorted({"await-kind=%d" % s[1] for s in body if s[0] == "a"})
-    if any(s[0] == "v" and s[1] >= WILD for s in body):
+    if any(s[0] == "v" and WILD <= s[1] < FUT for s in body):
         feats.append("value-eq-everything")
+    feats += sorted({"value-is-future:%s" % ("ConstFuture", "computed-task", "uncomputed-task", "unflushed-item")[s[1] % 4]
+                     for s in body if s[0] == "v" and s[1] >= FUT})
+    if pars:
+        feats.append("par")
+        feats += sorted({"par-sibling=" + o[2][0] for o in ops if o[0] == "par"})
+    if parked:
+        feats.append("par:task-started-and-parked-when-sibling-advanced")
+    if pars > parked:
+        feats.append("par:task-computed-when-sibling-advanced")
     if any(s[0] == "v" and s[1] == 0 for s in body):
         feats.append("value-None")
     feats += sorted({"op=" + o[0] for o in ops})
-    if any(o[0] == "compute" and o[1] >= sum(1 for p in ops if p[0] == "next") for o in ops):
+    if any(o[0] == "compute" and o[1] >= sum(1 for p in ops if p[0] in ("next", "par")) for o in ops):
         feats.append("malformed:compute-unknown-future")
     for o in ops:
         if o[0] == "take":
